@@ -638,3 +638,48 @@ def sweep(prog):
             pass
     out.append(f"definite assignment swept over {n} further functions outside the election scope")
     return out
+
+
+UT = "src/votekit/utils.py"
+MO = "src/votekit/models.py"
+STV = "src/votekit/elections/election_types/ranking/stv.py"
+PL = "src/votekit/elections/election_types/ranking/plurality.py"
+RD = "src/votekit/elections/election_types/ranking/random_dictator.py"
+BRD = "src/votekit/elections/election_types/ranking/boosted_random_dictator.py"
+PV = "src/votekit/elections/election_types/ranking/plurality_veto.py"
+TT = "src/votekit/elections/election_types/ranking/top_two.py"
+DS = "src/votekit/elections/election_types/ranking/dominating_sets.py"
+RT = "src/votekit/elections/election_types/scores/rating.py"
+FAULTS = [
+    ("BRD tiebreaks unbound again", [(BRD, "            winning_candidate = remaining_cands[0]\n            tiebreaks = {}\n", "            winning_candidate = remaining_cands[0]\n")], "C01.R1"),
+    ("stv elected only bound when someone passes", [(STV, "            elected = (frozenset(),)\n            eliminated = (frozenset([eliminated_cand]),)", "            eliminated = (frozenset([eliminated_cand]),)")], "C01.R1"),
+    ("plurality tiebreaks bound only on ties", [(PL, "            else:\n                tiebreaks = {}\n\n            new_state = ElectionState(\n                round_number=1,  # single shot election\n                remaining=remaining,\n                elected=elected,\n                scores=scores,\n                tiebreaks=tiebreaks,\n            )\n\n            self.election_states.append(new_state)\n\n        return new_profile\n\n\nclass SNTV",
+                                                  "\n            new_state = ElectionState(\n                round_number=1,  # single shot election\n                remaining=remaining,\n                elected=elected,\n                scores=scores,\n                tiebreaks=tiebreaks,\n            )\n\n            self.election_states.append(new_state)\n\n        return new_profile\n\n\nclass SNTV")], "C01.R1"),
+    ("dominating sets records nothing when one tier", [(DS, "        if store_states:\n            elected = (frozenset(dominating_tiers[0]),)", "        if store_states and len(dominating_tiers) > 1:\n            elected = (frozenset(dominating_tiers[0]),)")], "C01.R2"),
+    ("rating appends twice", [(RT, "            self.election_states.append(new_state)\n\n        return new_profile\n\n\nclass Rating", "            self.election_states.append(new_state)\n            if tie_resolution:\n                self.election_states.append(new_state)\n\n        return new_profile\n\n\nclass Rating")], "C01.R2"),
+    ("get_profile records", [(MO, "            profile = self._run_step(profile, self.election_states[i])\n\n        return profile", "            profile = self._run_step(profile, self.election_states[i], store_states=i < 0)\n\n        return profile")], "C01.R2"),
+    ("stv finished at m-1", [(STV, "        if len(elected_cands) == self.m:\n            return True", "        if len(elected_cands) == self.m - 1:\n            return True")], "C01.R3"),
+    ("RD finished strictly more", [(RD, "        return sum(cands_elected) >= self.m", "        return sum(cands_elected) > self.m")], "C01.R3"),
+    ("toptwo stops after one round", [(TT, "        if len(self.election_states) == 3:", "        if len(self.election_states) == 2:")], "C01.R3"),
+    ("plurality seats doubled", [(PL, "        self.m = m\n        self.tiebreak = tiebreak\n        super().__init__(profile, score_function=first_place_votes, sort_high_low=True)", "        self.m = 2 * m if False else m + 0\n        self.tiebreak = tiebreak\n        super().__init__(profile, score_function=first_place_votes, sort_high_low=True)")], "C01.R3"),
+    ("KeyError raised explicitly", [(UT, "            if len(first_cand) > 1:\n                raise ValueError(f\"Ballot {b} has a tie for first.\")", "            if len(first_cand) > 1:\n                raise KeyError(f\"Ballot {b} has a tie for first.\")")], "C01.R4"),
+    ("boundary tie picks silently", [(UT, "            if not tiebreak:\n                raise ValueError(\n                    \"Cannot elect correct number of candidates without breaking ties.\"\n                )\n            else:", "            if not tiebreak and profile is None:\n                raise ValueError(\n                    \"Cannot elect correct number of candidates without breaking ties.\"\n                )\n            else:")], "C01.R5"),
+    ("selector loop <= m", [(UT, "    while num_elected < m:", "    while num_elected <= m:")], "C01.R5"),
+    ("boundary test >= m", [(UT, "        if num_elected > m:\n            if not tiebreak:", "        if num_elected >= m:\n            if not tiebreak:")], "C01.R5"),
+    ("tie raises TypeError", [(UT, "                raise ValueError(\n                    \"Cannot elect correct number of candidates without breaking ties.\"\n                )", "                raise TypeError(\n                    \"Cannot elect correct number of candidates without breaking ties.\"\n                )")], "C01.R5"),
+    ("plurality removes remaining instead of elected", [(PL, "        new_profile = remove_cand([c for s in elected for c in s], profile)", "        new_profile = remove_cand([c for s in remaining for c in s], profile)")], "C01.R6"),
+    ("stv candidate tuple keeps the elected", [(STV, "        remaining_cands = set(profile.candidates).difference(\n            [c for s in elected for c in s]\n        )\n        new_profile = PreferenceProfile(\n            ballots=cleaned_ballots, candidates=tuple(remaining_cands)\n        )\n        return (tuple(elected), new_profile)",
+                                                 "        remaining_cands = set(profile.candidates).difference(\n            [c for s in elected[1:] for c in s]\n        )\n        new_profile = PreferenceProfile(\n            ballots=cleaned_ballots, candidates=tuple(remaining_cands)\n        )\n        return (tuple(elected), new_profile)")], "C01.R6"),
+    ("scores only over cast candidates", [(UT, "    scores = {c: Fraction(0) for c in profile.candidates}\n    for ballot in profile.ballots:\n        current_ind = 0", "    scores = {c: Fraction(0) for c in profile.candidates_cast}\n    for ballot in profile.ballots:\n        current_ind = 0")], "C01.R6"),
+    ("PV final round at m+1", [(PV, "        if remaining_count == self.m:", "        if remaining_count <= self.m + 1:")], "C01.R7"),
+    ("PV veto takes two points", [(PV, "                    new_scores[least_preferred] -= Fraction(1)", "                    new_scores[least_preferred] -= Fraction(2)")], "C01.R7"),
+    ("PV vetoes the favourite", [(PV, "                    least_preferred = list(tiebroken_ranking[-1])[0]", "                    least_preferred = list(tiebroken_ranking[0])[0]")], "C01.R7"),
+    ("PV eliminates below zero only", [(PV, "                    if new_scores[least_preferred] <= 0:", "                    if new_scores[least_preferred] < 0:")], "C01.R7"),
+    ("PV restarts with the same voter", [(PV, "                self.random_order[rand_index + 1 :]\n                + self.random_order[: rand_index + 1]", "                self.random_order[rand_index:]\n                + self.random_order[:rand_index]")], "C01.R7"),
+    ("PV condenses ballots", [(PV, "                condense=False,\n                leave_zero_weight_ballots=True,", "                condense=True,\n                leave_zero_weight_ballots=True,")], "C01.R7"),
+    ("PV one voter per ballot", [(PV, "            for _ in range(int(b.weight)):", "            for _ in range(1):")], "C01.R7"),
+]
+BENIGN = [
+    ("stv finish test flipped", [(STV, "        if len(elected_cands) == self.m:\n            return True", "        if self.m == len(elected_cands):\n            return True")]),
+    ("selector loop as not >=", [(UT, "    while num_elected < m:", "    while not num_elected >= m:")]),
+]
